@@ -107,6 +107,16 @@ func choose(bs *BranchSpec, in any, env *RefEnv, res *RefResult) []string {
 	return c
 }
 
+// marker: the value-form handlers of the builder SET their marker; the stream-form handlers merge a chunk
+// holding the marker into the stream, so a marker the value already carries (a loop through pass-through
+// nodes only) is concatenated with it, in whichever paradigm the run is called.
+func marker(streamForm bool, have any) any {
+	if s, ok := have.(string); ok && streamForm {
+		return s + "1"
+	}
+	return "1"
+}
+
 // evalNode: pre-handler marker, body (or nested graph), post-handler marker.
 func evalNode(g *GraphSpec, n *NodeSpec, in V, env *RefEnv, res *RefResult) (V, string, string) {
 	if n.Pre || n.StreamPre {
@@ -114,7 +124,7 @@ func evalNode(g *GraphSpec, n *NodeSpec, in V, env *RefEnv, res *RefResult) (V, 
 		for k, v := range in {
 			m[k] = v
 		}
-		m["p."+n.Key] = "1"
+		m["p."+n.Key] = marker(n.StreamPre, in["p."+n.Key])
 		in = m
 		res.StateLog[g.Name] = append(res.StateLog[g.Name], "pre:"+n.Key)
 	}
@@ -177,7 +187,7 @@ func evalNode(g *GraphSpec, n *NodeSpec, in V, env *RefEnv, res *RefResult) (V, 
 		for k, v := range out {
 			m[k] = v
 		}
-		m["q."+n.Key] = "1"
+		m["q."+n.Key] = marker(n.StreamPost, out["q."+n.Key])
 		out = m
 		res.StateLog[g.Name] = append(res.StateLog[g.Name], "post:"+n.Key)
 	}
